@@ -154,7 +154,7 @@ class Body(with_metaclass(HTTPSemantic, IFile)):
 		u"""Applies the Content-Encoding codec to the content."""
 		codec = self.content_codec
 		if codec:
-			self.set(codec.decode(self.__content_bytes()))
+			self.set(codec.decode(self.__content_bytes(), 'ISO8859-1').encode('ISO8859-1'))  # octets in, octets out
 			self.content_encoding = None
 
 	def set(self, content: Any) -> None:
